@@ -500,6 +500,7 @@ package gldap
 //@ func gldap.NewEntry
 //@   ensures  result != nil && fresh(result) && result.DN == dn
 //@   ensures[C16,C20] forall(j, 0, len(result.Attributes), result.Attributes[j] != nil && fresh(result.Attributes[j]))
+//@   ensures[C16] forall(j, 1, len(result.Attributes), !strless(result.Attributes[j].Name, result.Attributes[j-1].Name))
 //@   panics false
 //@   modifies nothing
 //@   tags C16
@@ -507,6 +508,8 @@ package gldap
 //@   invariant cap(attributeNames) > 0 ==> fresh(arrOf(attributeNames))
 //@ loop 2
 //@   invariant forall(j, 0, len(encodedAttributes), encodedAttributes[j] != nil && fresh(encodedAttributes[j]))
+//@   invariant len(encodedAttributes) == rangeindex + 1 && forall(j, 0, len(encodedAttributes), encodedAttributes[j].Name == attributeNames[j])
+//@   invariant forall(j, 1, len(attributeNames), !strless(attributeNames[j], attributeNames[j-1]))
 //@   invariant cap(encodedAttributes) > 0 ==> fresh(arrOf(encodedAttributes))
 //@ func (*gldap.Request).NewSearchResponseEntry
 //@   requires reqOK(r)
